@@ -1,0 +1,198 @@
+//go:build verif
+
+package kernel
+
+import (
+	"fmt"
+	"os"
+	"runtime/debug"
+
+	"github.com/MixinNetwork/mixin/common"
+	"github.com/MixinNetwork/mixin/config"
+	"github.com/MixinNetwork/mixin/crypto"
+	"github.com/MixinNetwork/mixin/kernel/internal"
+	"github.com/MixinNetwork/mixin/kernel/internal/clock"
+	"github.com/MixinNetwork/mixin/p2p"
+	"github.com/MixinNetwork/mixin/storage"
+	"github.com/dgraph-io/ristretto/v2"
+)
+
+// Verification hooks (build tag verif) for C31, the proposal batcher of
+// kernel/queue.go.  A real Node over a real Badger store (built the way
+// kernel/election_test.go setupTestNode builds it), a real p2p.Peer with fake
+// remote peers registered in its neighbor maps, a way to finalize funding
+// transactions so that spending transactions validate, and a wrapper that runs
+// the real popAndProcessCacheQueue once and collects what it sent.  The loop
+// and its size accounting are the repository code, nothing is copied here.
+
+const verifC31Config = `[node]
+signer-key = "56a7904a2dfd71c397bb48584033d8cb6ddcde9b46b7d91f07d2ede061723a0b"
+consensus-only = true
+memory-cache-size = 16
+cache-ttl = 7200
+ring-cache-size = 4096
+ring-final-size = 16384
+[network]
+listener = "mixin-node.example.com:7239"`
+
+type VerifC31Batcher struct {
+	Node  *Node
+	Store *storage.BadgerStore
+
+	// LastPanicStack is the stack of the panic recovered by the last RunOnce.
+	LastPanicStack string
+
+	injected []*p2p.Peer
+	funded   uint64
+}
+
+// VerifC31NewBatcher creates the node in dir (config.toml is written there)
+// from the genesis file at genesisPath.  Chain goroutines are mocked off.
+// node.Peer is a real p2p.Peer created as addRelayersFromConfig creates it,
+// with no seeds and no listener.
+func VerifC31NewBatcher(dir, genesisPath string) (*VerifC31Batcher, error) {
+	internal.ToggleMockRunAggregators(true)
+	if err := os.WriteFile(dir+"/config.toml", []byte(verifC31Config), 0644); err != nil {
+		return nil, err
+	}
+	custom, err := config.Initialize(dir + "/config.toml")
+	if err != nil {
+		return nil, err
+	}
+	gns, err := common.ReadGenesis(genesisPath)
+	if err != nil {
+		return nil, err
+	}
+	cache, err := ristretto.NewCache(&ristretto.Config[[]byte, any]{
+		NumCounters: 1e5,
+		MaxCost:     1 << 26,
+		BufferItems: 64,
+	})
+	if err != nil {
+		return nil, err
+	}
+	store, err := storage.NewBadgerStore(custom, dir)
+	if err != nil {
+		return nil, err
+	}
+	node, err := SetupNode(custom, store, cache, gns)
+	if err != nil {
+		store.Close()
+		return nil, err
+	}
+	node.Peer = p2p.NewPeer(node, node.IdForNetwork, fmt.Sprintf(":%d", custom.P2P.Port), node.isRelayer)
+	return &VerifC31Batcher{Node: node, Store: store}, nil
+}
+
+// Close stops the topology goroutine, closes the cache and the store.
+func (b *VerifC31Batcher) Close() error {
+	close(b.Node.done)
+	b.Node.cacheStore.Close()
+	return b.Store.Close()
+}
+
+func (b *VerifC31Batcher) SelfId() crypto.Hash { return b.Node.IdForNetwork }
+
+// WorkingNodes is what the loop calls allNodes.
+func (b *VerifC31Batcher) WorkingNodes() []crypto.Hash {
+	var ids []crypto.Hash
+	for _, cn := range b.Node.ListWorkingAcceptedNodes(clock.NowUnixNano()) {
+		ids = append(ids, cn.IdForNetwork)
+	}
+	return ids
+}
+
+// LocalCanPropose is the branch condition of the loop that decides whether the
+// batch is kept by the local node (true) or sent to a remote node (false).
+func (b *VerifC31Batcher) LocalCanPropose() bool {
+	now := clock.NowUnixNano()
+	return b.Node.chainCanProposeSnapshot(b.Node.ListWorkingAcceptedNodes(now), b.Node.chain, now)
+}
+
+// AddRelayer registers one connected relayer under id; as long as the send
+// target is not a direct neighbor every send goes through buildRelayMessage
+// and lands in this relayer's ring.
+func (b *VerifC31Batcher) AddRelayer(id crypto.Hash) {
+	b.injected = append(b.injected, b.Node.Peer.VerifC31AddRelayer(id))
+}
+
+// AddNeighbor registers id as a directly connected consumer; sends to id land
+// raw (no relay header) in its ring.
+func (b *VerifC31Batcher) AddNeighbor(id crypto.Hash) {
+	b.injected = append(b.injected, b.Node.Peer.VerifC31AddConsumer(id))
+}
+
+// Fund stores tx (which must have a genesis-style input so that no UTXO is
+// consumed, and script outputs) and finalizes it with a snapshot in the current
+// cache round of the local chain, through the public store API only
+// (WriteTransaction + WriteSnapshot).  Its outputs become spendable UTXOs.
+func (b *VerifC31Batcher) Fund(tx *common.VersionedTransaction) error {
+	if len(tx.Inputs) != 1 || len(tx.Inputs[0].Genesis) == 0 {
+		return fmt.Errorf("funding transaction needs a single genesis input")
+	}
+	chainId := b.Node.IdForNetwork
+	round, err := b.Store.ReadRound(chainId)
+	if err != nil {
+		return err
+	}
+	if round == nil {
+		chainId = b.Node.genesisNodes[0]
+		round, err = b.Store.ReadRound(chainId)
+		if err != nil {
+			return err
+		}
+	}
+	if round == nil {
+		return fmt.Errorf("no cache round for %s", chainId)
+	}
+	err = b.Store.WriteTransaction(tx)
+	if err != nil {
+		return err
+	}
+	b.funded++
+	s := &common.Snapshot{
+		Version:     common.SnapshotVersionCommonEncoding,
+		NodeId:      chainId,
+		RoundNumber: round.Number,
+		References:  round.References,
+		Timestamp:   clock.NowUnixNano() - uint64(config.SnapshotRoundGap) + b.funded,
+	}
+	s.AddTransaction(tx.PayloadHash())
+	s.Hash = s.PayloadHash()
+	b.Node.TopoCounter.Lock()
+	b.Node.TopoCounter.seq += 1 // as TopoWrite: seq is the last used order
+	order := b.Node.TopoCounter.seq
+	b.Node.TopoCounter.Unlock()
+	topo := &common.SnapshotWithTopologicalOrder{Snapshot: s, TopologicalOrder: order}
+	return b.Store.WriteSnapshot(topo, nil)
+}
+
+// Queue puts tx into the cache queue as the node does on receipt.
+func (b *VerifC31Batcher) Queue(tx *common.VersionedTransaction) error {
+	return b.Store.CacheQueueTransaction(tx)
+}
+
+// Validate is the validation call of the loop, exposed for timing.
+func (b *VerifC31Batcher) Validate(tx *common.VersionedTransaction) error {
+	return tx.Validate(b.Node.persistStore, clock.NowUnixNano(), false)
+}
+
+// RunOnce calls the real popAndProcessCacheQueue under recover, then drains
+// the rings of every injected peer.  popped is -1 if the loop panicked.
+func (b *VerifC31Batcher) RunOnce() (popped int, sent []*p2p.VerifC31Sent, panicVal any) {
+	popped = -1
+	b.LastPanicStack = ""
+	func() {
+		defer func() {
+			panicVal = recover()
+			if panicVal != nil {
+				b.LastPanicStack = string(debug.Stack())
+			}
+		}()
+		popped = b.Node.popAndProcessCacheQueue()
+	}()
+	for _, p := range b.injected {
+		sent = append(sent, p.VerifC31Drain()...)
+	}
+	return popped, sent, panicVal
+}
